@@ -146,10 +146,11 @@ def finish (fs : List Field) (pvals : List Val) (acc : List (Nat × Val)) (seen 
   let missing := sortDedup ((requiredTags fs).filter (fun t => ! seen.contains t))
   if missing.isEmpty then .ok (.struct (assemble fs pvals acc 0), rest) else .error (.missing missing)
 
-/-- the whole struct decoder on a positional prefix followed by groups with pairwise distinct tags. -/
-theorem decode_groups (decPosF : Bytes → Res (List Val × Bytes)) (arm : Arm) (fs : List Field)
-    (pos : Bytes) (pvals : List Val) (hpos : ∀ x, decPosF (pos ++ x) = .ok (pvals, x))
-    (gs : List Group) (hok : ∀ g ∈ gs, GroupOK arm g) (hnd : (gs.map (·.t)).Nodup) :
+/-- the whole struct decoder on a positional prefix followed by groups with pairwise distinct tags (the prefix
+only has to be read back in front of exactly these groups). -/
+theorem decode_groups_at (decPosF : Bytes → Res (List Val × Bytes)) (arm : Arm) (fs : List Field)
+    (pos : Bytes) (pvals : List Val) (gs : List Group) (hpos : decPosF (pos ++ flat gs) = .ok (pvals, flat gs))
+    (hok : ∀ g ∈ gs, GroupOK arm g) (hnd : (gs.map (·.t)).Nodup) :
     decStructWith decPosF arm fs (pos ++ flat gs) = finish fs pvals (results gs []) (tagsOf gs []) [] := by
   unfold decStructWith finish
   rw [hpos]
@@ -168,6 +169,13 @@ theorem decode_groups (decPosF : Bytes → Res (List Val × Bytes)) (arm : Arm) 
         | cons x xs => simp; omega
     omega
   rw [hfuel, loop_all_groups arm gs _ _ [] [] hok hnd (by simp) (by intro _; omega)]
+
+/-- the same when the positional prefix is read back in front of anything. -/
+theorem decode_groups (decPosF : Bytes → Res (List Val × Bytes)) (arm : Arm) (fs : List Field)
+    (pos : Bytes) (pvals : List Val) (hpos : ∀ x, decPosF (pos ++ x) = .ok (pvals, x))
+    (gs : List Group) (hok : ∀ g ∈ gs, GroupOK arm g) (hnd : (gs.map (·.t)).Nodup) :
+    decStructWith decPosF arm fs (pos ++ flat gs) = finish fs pvals (results gs []) (tagsOf gs []) [] :=
+  decode_groups_at decPosF arm fs pos pvals gs (hpos (flat gs)) hok hnd
 
 /-- **Any order.** Two arrangements of the same groups decode to the same result: same value, no bytes
 left over — or the same error. -/
